@@ -190,7 +190,7 @@ class Gen:
             return [t(x) for x in (b"", b"\x00", b"abc", b"\xff\xfe\x00\x01", bytes(range(7)), bytes(range(256)))]
         if t in (dt.Float, dt.Double):
             return [t(x) for x in (0.0, -0.0, 1.5, -2.25, 20.0, 1e300 if t is dt.Double else 1e30, 5e-324, float("inf"), float("-inf"),
-                                   float("nan"), 0.1, 123456789.125)]
+                                   float("nan"), 0.1, 123456789.125) if not (x != x and getattr(self, "no_nan", False))]
         if t is dt.Decimal:
             return [decimal.Decimal(x) for x in ("0", "1.5", "-0.001", "20.00", "12345678901234567890.123456789", "100", "-7",
                                                  "123456789012345678901234567891", "-0.1000000000000000000000000000001", "1.00", "1E+3",
